@@ -1,5 +1,5 @@
 (* C05 -- Lifted jit/remat/cond/switch/while_loop/map_variables act like the plain code. *)
-From Flaxm Require Import Lib.Harness Model.Filters Model.Linen Model.Lift Proofs.Lift.
+From Flaxm Require Import Lib.Harness Model.Filters Model.Linen Model.Lift Proofs.Lift Proofs.Linen Proofs.LinenInit Proofs.LinenChild.
 
 (* lift.pack, the building block of every lifted transform, for ANY transformed function (body), filters and variables: *)
 
@@ -40,6 +40,24 @@ Print Assumptions C05_publish_entries.
    class-name change of transformed classes, the RNG fork of nn.jit and the jit cache: decided per run by the
    correspondence (Model/Linen.v on the plain equivalent vs the lifted program on the real code, plus lifted vs
    plain on the real code). *)
+
+(* an identity lift (nn.remat, nn.map_variables with identity functions, the variable side of nn.jit) does not change what
+   a child computes: pack hands the child the dicts its scope holds (C05_default_view: all of them, same mutability), runs
+   it as a root and publishes what it leaves back under the scope entry by entry (C05_publish_entries).  On the Linen
+   reference semantics the plain run IS that, for every module program, scope path, input and variables: same output,
+   below the scope path exactly what the packed run leaves, and no value outside the scope path changes *)
+Theorem C05_identity_lift_is_transparent : forall ev fuel cls p x V cs tr y sA',
+  scope_ok p V -> run_call fuel ev cls p x (mkSt V cs tr) = Ok (y, sA') ->
+  exists sB', run_call fuel ev cls [] x (mkSt (subtree p V) [] []) = Ok (y, sB') /\
+              (forall c q nm, get_var (s_vars sA') c (p ++ q) nm = get_var (s_vars sB') c q nm) /\
+              (forall c Q M, is_prefix p Q = false -> get_var (s_vars sA') c Q M = get_var V c Q M).
+Proof. exact lift_is_transparent. Qed.
+Print Assumptions C05_identity_lift_is_transparent.
+(* a module running at a scope path only writes below it *)
+Theorem C05_writes_stay_below_the_scope : forall ev p fuel cls q x s y s',
+  run_call fuel ev cls (p ++ q) x s = Ok (y, s') -> forall c Q M, is_prefix p Q = false -> get_var (s_vars s') c Q M = get_var (s_vars s) c Q M.
+Proof. exact run_call_outside. Qed.
+Print Assumptions C05_writes_stay_below_the_scope.
 
 Example C05_example :
   let xs : cvars := [(1%N, [(NExp 1, VLeaf (SVec [1%Z]))]); (2%N, [(NExp 2, VLeaf (SVec [2%Z]))]); (3%N, [(NExp 3, VLeaf (SVec [3%Z]))])] in
